@@ -51,7 +51,9 @@ def gen_layout(rng):
     if rng.random() < 0.3:
         malformed = rng.choice(["two-parts", "five-parts", "no-version", "alpha-major", "alpha-minor", "alpha-port", "neg-version", "float-version",
                                 "empty-short", "version-0-0", "version-256", "port-too-big", "bad-short", "reserved-short", "bad-namespace", "hex-version",
-                                "empty-port", "empty-port-sidecar", "empty-major", "empty-minor", "trailing-dot-field"])
+                                "empty-port", "empty-port-sidecar", "empty-major", "empty-minor", "trailing-dot-field",
+                                "short-trailing-space", "short-trailing-tab", "short-trailing-nbsp", "short-leading-space", "short-inner-space",
+                                "short-hyphen", "short-trailing-newline"])
     return {"prefix": prefix, "root": root, "ns": nsp, "short": short, "ver": ver, "port": port, "ext": ext, "malformed": malformed}
 
 
@@ -99,6 +101,11 @@ def file_name(lay):
         parts[-3] = "9lives"
     elif m == "reserved-short":
         parts[-3] = "uint8"
+    elif m and m.startswith("short-"):
+        # blanks and other characters outside [A-Za-z0-9_] around or inside the short name are part of the name
+        parts[-3] = {"short-trailing-space": short + " ", "short-trailing-tab": short + "\t", "short-trailing-nbsp": short + "\u00a0",
+                     "short-leading-space": " " + short, "short-inner-space": short[:1] + " " + short[1:] + "x", "short-hyphen": short + "-x",
+                     "short-trailing-newline": short + "\n"}[m]
     return ".".join(parts) + lay["ext"]
 
 
